@@ -381,6 +381,15 @@ def r03_7(prog, rep):
             continue
         params = {("param", n) for n in g.params}
         for pth in gps:
+            # the statement form of `get_origin(x) or x`: on a path where get_origin(x) was tested, the branch decides which
+            # of the two is read (falsy / None: the class itself; truthy: the origin)
+            no_origin, has_origin = set(), set()
+            for gd, val in pth.guards():
+                subj, holds = gd, val
+                if gd[0] == "cmp" and gd[1] in ("is", "==") and gd[3] == ("const", None):
+                    subj, holds = gd[2], not val
+                if T.is_call_to(subj, "typing.get_origin") and subj[2]:
+                    (has_origin if holds else no_origin).add(subj[2][0])
             for tm in pth.all_terms():
                 for x in T.walk(tm):
                     subject = None
@@ -391,11 +400,11 @@ def r03_7(prog, rep):
                     if subject is None:
                         continue
                     n_reads += 1
-                    if subject in params:
+                    if subject in params and subject not in no_origin:
                         raw_reads.append(f"{g.name}: {T.show(x)[:50]}")
                     # typing.get_origin() of a class that is no alias is None: read without the `or obj` fallback, every
                     # plain TypedDict answers from None (no required keys, total)
-                    if T.is_call_to(subject, "typing.get_origin") and subject[2] and subject[2][0] in params:
+                    if T.is_call_to(subject, "typing.get_origin") and subject[2] and subject[2][0] in params and subject[2][0] not in has_origin:
                         bare_origin.append(f"{g.name}: {T.show(x)[:60]}")
     if n_reads:
         rep.check(not raw_reads, "R03.7", f"{C.INSP}", "", f"{n_reads} read(s) of a TypedDict dunder attribute go through the origin class", f"a TypedDict dunder is read from the annotation as given ({sorted(set(raw_reads))[:2]}): a parameterised generic TypedDict is an alias that forwards no dunder attribute, so Page[int] has no required keys (and is taken for total) -- unmarshal(Page[int], {{}}) returns {{}} where unmarshal(Page, {{}}) raises 'missing required keys'", detail="typeddict-dunder-of-alias")
